@@ -306,6 +306,25 @@ def run(ck):
         s.listen(1)
         env.socks[i] = s
 
+    def deaf_stream(env, which):
+        # a stream listener that never accepts and whose accept queue is already full: a blocking connect() to it never returns
+        i = 0 if which == 'sock' else 1
+        env.socks[i].close()
+        os.unlink(os.path.join(env.w, which))
+        s = socket.socket(socket.AF_UNIX, socket.SOCK_STREAM)
+        s.bind(os.path.join(env.w, which))
+        os.chmod(os.path.join(env.w, which), 0o666)
+        s.listen(0)
+        env.socks[i] = s
+        for _ in range(4):
+            c = socket.socket(socket.AF_UNIX, socket.SOCK_STREAM)
+            c.setblocking(False)
+            try:
+                c.connect(os.path.join(env.w, which))
+            except (BlockingIOError, OSError):
+                pass
+            env.socks.append(c)
+
     def rm_sock(env, which):
         i = 0 if which == 'sock' else 1
         env.socks[i].close()
@@ -313,7 +332,7 @@ def run(ck):
         env.socks[i] = socket.socket(socket.AF_UNIX, socket.SOCK_DGRAM)
     states = []
     for which, cname in (('sock', 'socket/default'), ('devlog', 'devlog/default'), ('devlog', 'devlog/allds+ident'), ('sock', 'socket/errlog')):
-        for sn, fn in (('queue_full_unread', full_queue), ('bound_then_closed', closed_sock), ('stream_socket_at_path', stream_sock), ('absent', rm_sock)):
+        for sn, fn in (('queue_full_unread', full_queue), ('bound_then_closed', closed_sock), ('stream_socket_at_path', stream_sock), ('deaf_stream_listener_with_full_accept_queue', deaf_stream), ('absent', rm_sock)):
             states.append(('%s:%s' % (cname, sn), cfg[cname].replace('@W@/absent', '@W@/sock'), 0, (lambda env, fn=fn, which=which: fn(env, which))))
     fcfg = cfg['file/default']
     states.append(('file:parent_dir_absent', fcfg.replace('@W@/log', '@W@/no/such/dir/log'), 0, None))
